@@ -80,6 +80,8 @@ def c09(tier, seed):
         ("fpool", "update_owner", dict(owner="newowner")),
         ("fpool", "remove_token", {}),
         ("fpool", "send_token", dict(amount=10, recipient="tr3")),
+        ("fpool", "send_token", dict(amount=10, recipient="owner")),
+        ("fpool", "send_token", dict(amount=10, recipient="stranger")),
         ("feed", "append_price", dict(key="ETH", price=1100, t=100000)),
         ("feed", "append_multiple_price", dict(key="ETH", prices=[1100, 1200], ts=[100000, 100000])),
         ("feed", "update_owner", dict(owner="newowner")),
@@ -109,7 +111,7 @@ def c09(tier, seed):
             ("engine-owner", tx("engine", "update_config", "owner", dict(owner="newowner")), [("engine", "update_config", dict(liqfee=3))]),
             ("engine-pauser", tx("engine", "update_pauser", "pauser", dict(pauser="newowner")), [("engine", "set_pause", dict(pause=True)), ("engine", "add_whitelist", dict(address="tr3")), ("engine", "update_pauser", dict(pauser="stranger"))]),
             ("ifund", tx("ifund", "update_owner", "owner", dict(owner="newowner")), [("ifund", "add_vamm", dict(vamm="vamm2")), ("ifund", "remove_vamm", dict(vamm="vamm1")), ("ifund", "shutdown_vamms", {})]),
-            ("fpool", tx("fpool", "update_owner", "owner", dict(owner="newowner")), [("fpool", "send_token", dict(amount=10, recipient="tr3")), ("fpool", "remove_token", {})]),
+            ("fpool", tx("fpool", "update_owner", "owner", dict(owner="newowner")), [("fpool", "send_token", dict(amount=10, recipient="tr3")), ("fpool", "send_token", dict(amount=10, recipient="newowner")), ("fpool", "send_token", dict(amount=10, recipient="owner")), ("fpool", "remove_token", {})]),
             ("feed", tx("feed", "update_owner", "owner", dict(owner="newowner")), [("feed", "append_price", dict(key="ETH", price=900, t=100000))]),
             ("vamm-engine", tx("vamm1", "update_config", "owner", dict(engine="newowner")), [("vamm1", "swap_input", dict(dir="add", amount=500, limit=0, over=False)), ("vamm1", "settle_funding", {})]),
             ("vamm-ifund", tx("vamm1", "update_config", "owner", dict(ifund="newowner")), [("vamm1", "set_open", dict(open=False))]),
@@ -219,8 +221,9 @@ def c20(tier, seed):
             t = rng.choice(["tr1", "tr2", "tr3"])
             if r < 0.55:
                 m = rng.choice([300, 1000, 1500, 2500, 4000])
+                lev = rng.choice([1000, 1000, 1000, 100, 200, 500])
                 side = rng.choice(["buy", "sell"])
-                ops.append(opn(t, side, m, 1000, funds=m if native else 0))
+                ops.append(opn(t, side, m, lev, funds=m if native else 0))
             elif r < 0.65:
                 ops.append(close(t))
             elif r < 0.78:
@@ -231,6 +234,24 @@ def c20(tier, seed):
                 ops.append(block(15))
         out.append(dict(id="c20-%d" % k, deploy=dep("native" if native else "cw20", vamms=[dict(hcap=hcap, oicap=oicap)]), ops=ops))
         k += 1
+    # reversals across the caps with unequal leverage on the two legs (the reversal releases more margin than the
+    # new leg needs, or needs a top-up), for capped, uncapped and whitelisted traders
+    for coll in ("cw20", "native"):
+        native = coll == "native"
+        for (hcap, oicap) in ((1000, 0), (2000, 0), (0, 20000), (1000, 20000)):
+            for side in ("buy", "sell"):
+                osd = "sell" if side == "buy" else "buy"
+                for (m1, l1) in ((6000, 100), (3000, 200), (600, 1000)):
+                    for (m2, l2) in ((3000, 1000), (1200, 1000), (6000, 200), (30000, 100)):
+                        for wl in (False, True):
+                            ops = [block(15)]
+                            if wl:
+                                ops.append(tx("engine", "add_whitelist", "owner", dict(address="tr1")))
+                            ops += [opn("tr1", side, m1, l1, funds=m1 if native else 0), block(15),
+                                    opn("tr1", osd, m2, l2, funds=m2 if native else 0),
+                                    query("engine", "position", dict(vamm="vamm1", trader="tr1")), close("tr1")]
+                            out.append(dict(id="c20-%d" % k, deploy=dep(coll, trader_bal=5000000, vamms=[dict(hcap=hcap, oicap=oicap)]), ops=ops))
+                            k += 1
     return out
 
 # ------------------------------------------------------------------------------------------------
@@ -566,6 +587,29 @@ def c17(tier, seed):
                         k += 1
     return out
 
+def c17q(tier, seed):
+    """OpenPosition with the slippage limit at the vAMM's own quote +/- 1, for a fresh trader, an increase, a reduce,
+    and after the trader was flattened - by an opposite order of exactly the position's value, one unit more, one
+    unit less (a reduce that rounds up to the whole size: zero size, dust notional) - with maintenance ratio 0 and 5 %"""
+    out = []
+    k = 0
+    for coll in ("cw20", "native"):
+        native = coll == "native"
+        for mmr in (0, 5):
+            for first in ("buy", "sell"):
+                for delta in (0, 1, -1, None):
+                    for again in ("buy", "sell"):
+                        for off in (-1, 0, 1):
+                            ops = [block(15), opn("tr1", first, 6000, 100, funds=6000 if native else 0), block(15)]
+                            if delta is not None:
+                                ops += [dict(k="flatten", s="tr1", v="vamm1", delta=delta), query("engine", "position", dict(vamm="vamm1", trader="tr1")), block(15)]
+                            ops += [dict(k="open_lim", s="tr1", v="vamm1", side=again, margin=1000, leverage=100, off=off, funds=1000 if native else 0),
+                                    dict(k="open_lim", s="tr2", v="vamm1", side=again, margin=1000, leverage=100, off=off, funds=1000 if native else 0),
+                                    close("tr1"), close("tr2")]
+                            out.append(dict(id="c17q-%d" % k, deploy=dep(coll, engine=dict(mmr=mmr)), ops=ops))
+                            k += 1
+    return out
+
 def c13rev(tier, seed):
     """reversals that re-open, across the relation between the fees, the old position's equity and the new
     margin (the native required-funds bookkeeping has one arm per ordering): cw20 scenarios for the twin runner"""
@@ -672,6 +716,15 @@ def c10(tier, seed):
         for a in attacks:
             out.append(dict(id="c10-%d" % k, deploy=dep(coll), ops=base + [a, query("engine", "position", dict(vamm="vamm1", trader="tr1"))]))
             k += 1
+        # a Liquidate naming an address that differs from an under-margined trader's only by blanks / a suffix
+        for plr in (0, 25):
+            for alias in ("tr1+ ", "tr1+  ", "tr1+x", "tr1+\t"):
+                ops = underwater_prefix(native) + [query("engine", "margin_ratio", dict(vamm="vamm1", trader="tr1")),
+                                                  tx("engine", "liquidate", "liq", dict(vamm="vamm1", trader=alias, limit=0)),
+                                                  query("engine", "position", dict(vamm="vamm1", trader="tr1")),
+                                                  tx("engine", "liquidate", "liq", dict(vamm="vamm1+ ", trader="tr1", limit=0))]
+                out.append(dict(id="c10-%d" % k, deploy=dep(coll, engine=dict(plr=plr)), ops=ops))
+                k += 1
     return out
 
 
@@ -1002,8 +1055,141 @@ def selfliq(tier, seed):
     return out
 
 
+
+def dustliq(tier, seed):
+    """dust positions (2-4 raw base units, 2x) pushed into the window (liquidation fee, maintenance]: the
+    partial liquidation's slice rounds to zero"""
+    out = []
+    k = 0
+    for coll in ("cw20", "native"):
+        native = coll == "native"
+        for vside in ("buy", "sell"):
+            pside = "sell" if vside == "buy" else "buy"
+            for (plr, liqfee) in ((25, 1), (10, 2)):
+                for m in (20, 15, 10):
+                    for push in range(6000, 31000, 750 if coll == "cw20" else 3000):
+                        ops = [block(15), opn("tr1", vside, m, 200, funds=m if native else 0),
+                               query("engine", "position", dict(vamm="vamm1", trader="tr1")), block(15),
+                               opn("tr2", pside, push, 100, funds=push if native else 0), block(901),
+                               dict(k="oracle_rel", v="vamm1", off=0, interval=60),
+                               query("engine", "margin_ratio", dict(vamm="vamm1", trader="tr1")),
+                               liq("liq", "tr1"), query("engine", "position", dict(vamm="vamm1", trader="tr1")),
+                               block(15), liq("tr3", "tr1"), close("tr1"), close("tr2")]
+                        out.append(dict(id="dustliq-%d" % k, deploy=dep(coll, trader_bal=5000000, engine=dict(imr=10, mmr=5, plr=plr, liqfee=liqfee)), ops=ops))
+                        k += 1
+    return out
+
+def fundbig(tier, seed):
+    """funding owed larger than the stored margin while the position is in profit (equity positive): every way
+    of settling it"""
+    out = []
+    k = 0
+    day = 86400
+    for coll in ("cw20", "native"):
+        native = coll == "native"
+        for side in ("buy", "sell"):
+            for off in (120, 200, 400):
+                for tail in ("close", "withdraw", "reduce", "reverse", "liquidate", "deposit_close"):
+                    sgn = -1 if side == "buy" else 1          # longs pay when the oracle is below the vAMM TWAP
+                    osd = "sell" if side == "buy" else "buy"
+                    ops = [block(15), opn("tr1", side, 1000, 1000, funds=1000 if native else 0), block(15),
+                           opn("tr2", side, 10000, 500, funds=10000 if native else 0), block(3601),
+                           dict(k="oracle_rel", v="vamm1", off=sgn * off), block(day),
+                           tx("engine", "pay_funding", "stranger", dict(vamm="vamm1")),
+                           query("engine", "position_with_funding_payment", dict(vamm="vamm1", trader="tr1")),
+                           query("engine", "unrealized_pnl", dict(vamm="vamm1", trader="tr1", opt="spot_price"))]
+                    if tail == "close":
+                        ops.append(close("tr1"))
+                    elif tail == "withdraw":
+                        ops += [tx("engine", "withdraw_margin", "tr1", dict(vamm="vamm1", amount=10)), close("tr1")]
+                    elif tail == "reduce":
+                        ops += [opn("tr1", osd, 200, 1000), close("tr1")]
+                    elif tail == "reverse":
+                        ops += [opn("tr1", osd, 3000, 1000, funds=3000 if native else 0), close("tr1")]
+                    elif tail == "liquidate":
+                        ops += [liq("liq", "tr1"), close("tr1")]
+                    else:
+                        ops += [tx("engine", "deposit_margin", "tr1", dict(vamm="vamm1", amount=50), funds=50 if native else 0), close("tr1")]
+                    ops.append(close("tr2"))
+                    out.append(dict(id="fundbig-%d" % k, deploy=dep(coll, vamms=[dict(period=day)]), ops=ops))
+                    k += 1
+    return out
+
+def fundempty(tier, seed):
+    """funding settled while the net position is zero (nobody in the market, or an exactly balanced book) and the
+    premium is not: the cumulative fraction must still advance; positions opened around it are charged from it"""
+    out = []
+    k = 0
+    for coll in ("cw20", "native"):
+        native = coll == "native"
+        for off in (48, -48, 240, -120):
+            for book in ("empty", "balanced", "dust"):
+                ops = [block(15)]
+                if book == "balanced":
+                    ops += [opn("tr1", "buy", 600, 100, funds=600 if native else 0), opn("tr2", "sell", 600, 100, funds=600 if native else 0),
+                            query("vamm1", "state", {})]
+                elif book == "dust":
+                    ops += [opn("tr1", "buy", 1, 100, funds=1 if native else 0)]
+                ops += [block(3600), dict(k="oracle_rel", v="vamm1", off=off), block(3600),
+                        tx("engine", "pay_funding", "stranger", dict(vamm="vamm1")),
+                        query("engine", "cumulative_premium_fraction", dict(vamm="vamm1")),
+                        opn("tr3", "buy", 500, 200, funds=500 if native else 0), block(3600),
+                        tx("engine", "pay_funding", "liq", dict(vamm="vamm1")),
+                        tx("engine", "withdraw_margin", "tr1", dict(vamm="vamm1", amount=1)),
+                        tx("engine", "withdraw_margin", "tr2", dict(vamm="vamm1", amount=1)),
+                        tx("engine", "withdraw_margin", "tr3", dict(vamm="vamm1", amount=1)),
+                        close("tr1"), close("tr2"), close("tr3")]
+                out.append(dict(id="fundempty-%d" % k, deploy=dep(coll), ops=ops))
+                k += 1
+    return out
+
+def c06t(tier, seed):
+    """a vAMM whose configured (funding) TWAP interval is shorter than 15 minutes: the liquidation ratio still uses
+    the 15-minute TWAP; price moved longer ago than the configured interval but inside 15 minutes"""
+    out = []
+    k = 0
+    for twapint in (60, 300):
+        for vside in ("buy", "sell"):
+            pside = "sell" if vside == "buy" else "buy"
+            for wait in (61, 301, 420, 700):
+                for push in (4000, 4800, 5400, 6000, 7000, 9000):
+                    ops = [block(15), opn("tr1", vside, 2500, 1000), block(1800),
+                           opn("tr2", pside, push // 10, 1000), block(wait),
+                           dict(k="oracle_rel", v="vamm1", off=0, interval=1),
+                           query("engine", "margin_ratio", dict(vamm="vamm1", trader="tr1")),
+                           liq("liq", "tr1"), block(901), liq("liq", "tr1")]
+                    out.append(dict(id="c06t-%d" % k, deploy=dep("cw20", engine=dict(plr=0), vamms=[dict(twapint=twapint)]), ops=ops))
+                    k += 1
+    return out
+
+def closelim(tier, seed):
+    """ClosePosition carrying a slippage limit the trade satisfies (and one it does not), on the whole-close and on
+    the partial-close (price band) path: the position is built over several blocks so that closing it whole
+    would cross the band"""
+    out = []
+    k = 0
+    for coll in ("cw20", "native"):
+        native = coll == "native"
+        for fl in (0, 5):
+            for plr in (0, 25, 100):
+                for side in ("buy", "sell"):
+                    ok_lim = 100 if side == "buy" else 10 ** 7
+                    bad_lim = 10 ** 7 if side == "buy" else 1
+                    for (m, nb) in ((2000, 3), (600, 1)):
+                        for lim in (ok_lim, bad_lim, 0):
+                            ops = []
+                            for _ in range(nb):
+                                ops += [block(15), opn("tr1", side, m, 100, funds=m if native else 0)]
+                            ops += [block(15), opn("tr2", side, 600, 100, funds=600 if native else 0), block(15),
+                                    close("tr1", limit=lim), query("engine", "position", dict(vamm="vamm1", trader="tr1")),
+                                    block(15), close("tr1", limit=lim), block(15), close("tr1", limit=ok_lim), close("tr2", limit=ok_lim)]
+                            out.append(dict(id="closelim-%d" % k, deploy=dep(coll, engine=dict(plr=plr), vamms=[dict(fluct=fl)]), ops=ops))
+                            k += 1
+    return out
+
 FAMILIES = ["c02lp", "c04", "c04r", "c04p", "c05", "c06", "c06f", "c07", "c08", "c10", "c16", "c17", "c03",
-            "zsr", "zsrliq", "attached", "fundzero", "c07edge", "c14f", "c12hi", "c15sub", "selfliq", "c13flat"]
+            "zsr", "zsrliq", "attached", "fundzero", "c07edge", "c14f", "c12hi", "c15sub", "selfliq", "c13flat",
+            "dustliq", "fundbig", "fundempty", "c06t", "closelim", "c17q"]
 
 def pool(tier, seed, cap=200, exclude=(), only_cw20=False):
     """a seeded sample across ALL scenario families: every engine property is also judged on the inputs that
@@ -1042,32 +1228,34 @@ def for_property(pid, tier, seed):
         out = [("c20config", c20(tier, seed))]
     if pid == "C08":
         out = [("c08sweeps", c08(tier, seed)), ("c06liq", c06(tier, seed)), ("c07vault", c07(tier, seed)),
-               ("selfliq", selfliq(tier, seed)), ("attached", attached(tier, seed)), ("zsrliq", zsrliq(tier, seed))]
+               ("selfliq", selfliq(tier, seed)), ("attached", attached(tier, seed)), ("zsrliq", zsrliq(tier, seed)), ("closelim", closelim(tier, seed))]
     if pid == "C16":
         out = [("c16orderings", c16(tier, seed)), ("c06liq", c06(tier, seed)), ("zsrliq", zsrliq(tier, seed)), ("selfliq", selfliq(tier, seed))]
     if pid == "C03":
         out = [("c03fpool", c03(tier, seed)), ("c08sweeps", c08(tier, seed)), ("attached", attached(tier, seed)),
-               ("selfliq", selfliq(tier, seed)), ("c12hi", c12hi(tier, seed))]
+               ("selfliq", selfliq(tier, seed)), ("c12hi", c12hi(tier, seed)), ("dustliq", dustliq(tier, seed))]
     if pid == "C05":
         out = [("c05lev", c05(tier, seed)), ("c08sweeps", c08(tier, seed)), ("attached", attached(tier, seed)), ("fundzero", fundzero(tier, seed))]
     if pid in ("C02", "C06", "C07"):
         out = [("c02lowprice", c02lp(tier, seed)), ("c06funding", c06f(tier, seed)), ("c04funding", c04(tier, seed)), ("c06liq", c06(tier, seed)),
                ("c07vault", c07(tier, seed)), ("c08sweeps", c08(tier, seed)), ("c16orderings", c16(tier, seed)),
-               ("zsr", samp(zsr(tier, seed), n, seed)), ("zsrliq", zsrliq(tier, seed)), ("selfliq", selfliq(tier, seed)), ("c07edge", c07edge(tier, seed))]
+               ("zsr", samp(zsr(tier, seed), n, seed)), ("zsrliq", zsrliq(tier, seed)), ("selfliq", selfliq(tier, seed)), ("c07edge", c07edge(tier, seed)),
+               ("dustliq", dustliq(tier, seed)), ("c06t", c06t(tier, seed)), ("closelim", samp(closelim(tier, seed), n, seed))]
     if pid == "C10":
         out = [("c10alias", c10(tier, seed)), ("c08sweeps", c08(tier, seed)), ("c16orderings", c16(tier, seed)), ("c07vault", c07(tier, seed)),
                ("zsrliq", zsrliq(tier, seed)), ("zsr", samp(zsr(tier, seed), n // 2, seed))]
     if pid in ("C12", "C04"):
         out = [("c04reverse", c04r(tier, seed)), ("c04partial", c04p(tier, seed)), ("c04funding", c04(tier, seed)), ("c08sweeps", c08(tier, seed)),
                ("c16orderings", c16(tier, seed)), ("c07vault", c07(tier, seed)), ("c12hi", c12hi(tier, seed)), ("fundzero", fundzero(tier, seed)),
-               ("zsr", samp(zsr(tier, seed), n // 2, seed))]
+               ("zsr", samp(zsr(tier, seed), n // 2, seed)), ("fundbig", fundbig(tier, seed)), ("c03ptr", c03(tier, seed)),
+               ("closelim", samp(closelim(tier, seed), n // 2, seed))]
     if pid == "C17":
-        out = [("c17stale", c17(tier, seed))]
+        out = [("c17stale", c17(tier, seed)), ("closelim", closelim(tier, seed)), ("c17quote", c17q(tier, seed))]
     if pid == "C11":
         out = [("c04partial", c04p(tier, seed)), ("c04funding", c04(tier, seed)), ("c06funding", c06f(tier, seed)), ("fundzero", fundzero(tier, seed)),
-               ("c18long", c18long(tier, seed)[-1:])]
+               ("c18long", c18long(tier, seed)[-1:]), ("fundempty", fundempty(tier, seed)), ("fundbig", fundbig(tier, seed))]
     if pid == "C15":
-        out = [("c15sub", c15sub(tier, seed)), ("c07edge", c07edge(tier, seed))]
+        out = [("c15sub", c15sub(tier, seed)), ("c07edge", c07edge(tier, seed)), ("closelim", closelim(tier, seed))]
     if pid == "C18":
         out = [("c18long", c18long(tier, seed)), ("c15sub", c15sub(tier, seed))]
     if pid in ENGINE_PROPS:
